@@ -7,11 +7,13 @@ STATE_POOLS = {
     "int": [0, 1, 2],
     "reserved": ["#STARTTOFINAL#", "#ENDTOFINAL#", "#STARTEMPTYS#", "#ENDEMPTYS#", "q"],
     "startish": ["starting_q", "q", "starting_0"],
+    "int_str": [0, "0", 1],              # different values with the same str()
 }
 STACK_POOLS = {
     "std": ["Z", "A", "B"],
     "int": [0, 1, 2],
     "reserved": ["#BOTTOMTOFINAL#", "#BOTTOMEMPTYS#", "Z", "#BOTTOMTOFINAL#0"],
+    "int_str": ["Z", 0, "0"],
 }
 SYM_POOLS = {"ab": ["a", "b"], "a": ["a"], "int": [0, 1], "tok": ["ab", "c"]}
 
@@ -19,8 +21,8 @@ SYM_POOLS = {"ab": ["a", "b"], "a": ["a"], "int": [0, 1], "tok": ["ab", "c"]}
 @st.composite
 def pda_desc(draw, max_states=3, max_stack=3, max_trans=7, state_pools=None, stack_pools=None, sym_pools=None,
              eps=True, max_push=3):
-    sp = draw(st.sampled_from(state_pools or ["str", "str", "int", "reserved", "startish"]))
-    kp = draw(st.sampled_from(stack_pools or ["std", "std", "int", "reserved"]))
+    sp = draw(st.sampled_from(state_pools or ["str", "str", "int", "reserved", "startish", "int_str"]))
+    kp = draw(st.sampled_from(stack_pools or ["std", "std", "int", "reserved", "int_str"]))
     yp = draw(st.sampled_from(sym_pools or ["ab", "ab", "a", "int", "tok"]))
     ns = min(draw(st.sampled_from([2, 3, 1, 2, 3])), max_states, len(STATE_POOLS[sp]))
     nk = min(draw(st.sampled_from([2, 3, 1, 2])), max_stack, len(STACK_POOLS[kp]))
